@@ -483,7 +483,7 @@ Proof.
     assert (V : p_valid (as_struct p) = true) by (destruct (p_valid (as_struct p)); auto; discriminate).
     destruct (hp_as_struct _ _ _ HK) as [_ K]. cbn [fst snd] in K. unfold rng_of in K. rewrite EL in K. cbn [negb] in K.
     destruct (K eq_refl V) as [SR _].
-    destruct (frame_all (e_fuel e)) as [P _].
+    destruct (frame_all true (e_fuel e)) as [P _].
     assert (GG : G (w_dst (st_w st)) (w_src (st_w st)) w1 (Rword (p_seg (as_struct p)) (pointerAddress (as_struct p) i))).
     { apply (P true (st_w st) (p_seg (as_struct p)) (pointerAddress (as_struct p) i) ls q false w1); auto.
       - exact (proj1 HQ).
@@ -500,7 +500,7 @@ Proof.
     { unfold primitiveElem in EP. destruct (p_valid (as_list p)); auto. cbn in EP. discriminate. }
     destruct (hp_as_list _ _ _ HK) as [_ K]. cbn [fst snd] in K. unfold rng_of in K. rewrite EL in K. cbn [negb] in K.
     destruct (K eq_refl V) as [SR _].
-    destruct (frame_all (e_fuel e)) as [P _].
+    destruct (frame_all true (e_fuel e)) as [P _].
     assert (GG : G (w_dst (st_w st)) (w_src (st_w st)) w1 (Rword (p_seg (as_list p)) a)).
     { apply (P true (st_w st) (p_seg (as_list p)) a ls q false w1); auto.
       - exact (proj1 HQ).
@@ -517,7 +517,7 @@ Proof.
     destruct (p_valid el) eqn:EVE; [|exfalso; eapply copy_struct_invalid_dst; eauto].
     pose proof (hp_list_struct _ _ _ _ _ (hp_as_list _ _ _ HK) ELS) as [K1 K2].
     cbn [fst snd] in K2. unfold rng_of in K2. rewrite EL in K2. cbn [negb] in K2. destruct (K2 eq_refl EVE) as [SR AR].
-    destruct (frame_all (e_fuel e)) as [_ P].
+    destruct (frame_all true (e_fuel e)) as [_ P].
     assert (GG : G (w_dst (st_w st)) (w_src (st_w st)) w1 (Rfrom el)).
     { apply (P true (st_w st) el ls (as_struct q) w1); auto. apply (hp_as_struct _ _ _ HQ). }
     destruct GG as (_ & I & N & _). split; assumption.
@@ -529,7 +529,7 @@ Proof.
     destruct (p_valid (as_struct p)) eqn:EVE; [|exfalso; eapply copy_struct_invalid_dst; eauto].
     destruct (hp_as_struct _ _ _ HK) as [K1 K2].
     cbn [fst snd] in K2. unfold rng_of in K2. rewrite EL in K2. cbn [negb] in K2. destruct (K2 eq_refl EVE) as [SR AR].
-    destruct (frame_all (e_fuel e)) as [_ P].
+    destruct (frame_all true (e_fuel e)) as [_ P].
     assert (GG : G (w_dst (st_w st)) (w_src (st_w st)) w1 (Rfrom (as_struct p))).
     { apply (P true (st_w st) (as_struct p) ls (as_struct q) w1); auto. apply (hp_as_struct _ _ _ HQ). }
     destruct GG as (_ & I & N & _). split; assumption.
@@ -539,7 +539,7 @@ Proof.
     destruct (bm_segs (w_dst (st_w st))) as [|s0 r0] eqn:ES; [discriminate|].
     destruct (negb _); [discriminate|].
     assert (SR : 0 <= 0 < nsegs (w_dst (st_w st))) by (unfold nsegs, zlen; rewrite ES; cbn [length]; lia).
-    destruct (frame_all (e_fuel e)) as [P _].
+    destruct (frame_all true (e_fuel e)) as [P _].
     assert (GG : G (w_dst (st_w st)) (w_src (st_w st)) w1 (Rword 0 0)).
     { apply (P true (st_w st) 0 0 ls q false w1); auto.
       - exact (proj1 HQ).
@@ -575,6 +575,22 @@ Proof.
       * destruct HF as [Z1 _]. split; [exact Z1|intros X; discriminate X].
   - intros H. destruct (root _ _ _) as [r rl]. injection H as <- _. exact Hb.
   - destruct l; intros H; injection H as <- _; exact Hb.
+  - (* reopen *)
+    intros H. injection H as <- _. cbn [st_w st_h w_dst w_set_dst].
+    assert (Hn : nsegs (mkBM AMulti (map (fun d => mkBS d (zlen d)) (bm_data (w_dst (st_w st)))) [] (init_rlimit (e_cfgd e)))
+                 = nsegs (w_dst (st_w st))).
+    { unfold nsegs, bm_data. cbn [bm_segs]. now rewrite !zlen_map. }
+    split.
+    + split.
+      * unfold bmsg_wf. cbn [bm_segs]. apply Forall_forall. intros s Hs. apply in_map_iff in Hs.
+        destruct Hs as (d & <- & Hd). unfold bm_data in Hd. apply in_map_iff in Hd. destruct Hd as (b & <- & Hbs).
+        destruct Hi as [Hw0 _]. unfold bmsg_wf in Hw0. rewrite Forall_forall in Hw0. destruct (Hw0 b Hbs) as [_ H8].
+        unfold seg_wf, blen in *. cbn [bs_data bs_cap]. lia.
+      * unfold arena_wf. cbn [bm_arena]. discriminate.
+    + apply Forall_forall. intros h Hin. apply in_map_iff in Hin. destruct Hin as ([l0 p0] & <- & Hin0).
+      rewrite Forall_forall in Hh. specialize (Hh _ Hin0). cbn [fst].
+      destruct l0; [apply hp_null|]. unfold hk in *. cbn [fst snd] in *.
+      eapply hp_mono; [|exact Hh]. cbn [st_w w_dst w_set_dst]. rewrite Hn. lia.
 Qed.
 
 (* ------------------------------------------------------------------ initial states *)
